@@ -154,6 +154,18 @@ Proof. exact alias_into_loop_diverges. Qed.
 Theorem alias_loop_is_dangling_in_the_standards : dangling ents_loop s_b.
 Proof. exact loop_is_dangling. Qed.
 
+(* field-code lookup (_GD_FindField with de-aliasing): a metafield is reached
+   through a chain of aliases of ANY length -- if p is an alias whose ultimate target
+   is T and T/sub is a field, the code p/sub names it *)
+Theorem lookup_subfield_through_alias_chain : forall ents p sub P t T E,
+  (match p with c :: _ => (c =? cDOT) = false | [] => True end) ->
+  split_first cSLASH p = None ->
+  find_field (p ++ cSLASH :: sub) ents = None ->
+  find_field p ents = Some P -> e_kind P = EAlias t -> alias_spec ents t = Some T ->
+  find_field (T ++ cSLASH :: sub) ents = Some E -> is_alias E = false ->
+  lookup_code ents (p ++ cSLASH :: sub) = Some (e_name E).
+Proof. exact AliasProofs.lookup_subfield_through_alias_chain. Qed.
+
 Theorem alias_target_unique : forall ents t x x', resolves_to ents t x -> resolves_to ents t x' -> x = x'.
 Proof. exact resolves_to_unique. Qed.
 
